@@ -15,10 +15,10 @@ INT64_MIN = -(2 ** 63)
 
 
 def check(ctx):
-    r141_siblings(ctx)
-    r142_labels(ctx)
-    r144_scalar(ctx)
-    r145_formulas(ctx)
+    ctx.guard(r141_siblings, ctx)
+    ctx.guard(r142_labels, ctx)
+    ctx.guard(r144_scalar, ctx)
+    ctx.guard(r145_formulas, ctx)
 
 
 def r141_siblings(ctx, rule="R14.1"):
